@@ -669,6 +669,32 @@ theorem invD_evEnd (g : Cfg) (s : S) (hi : InvD g s) : InvD g (evEnd g s) := by
       · exact invD_flipWE g _ (h1.same rfl rfl rfl rfl rfl rfl)
     · exact h1
 
+theorem invD_evConnEnd (g : Cfg) (s : S) (hi : InvD g s) : InvD g (evConnEnd g s) := by
+  unfold evConnEnd
+  split
+  · exact hi
+  · split
+    · exact (hi.same (t := { s with connecting := false, connEv := false }) rfl rfl rfl rfl rfl rfl).of_D (D_cResetRead g _)
+    · exact hi
+
+theorem invD_evRearm (g : Cfg) (s : S) (hi : InvD g s) : InvD g (evRearm g s) := by
+  unfold evRearm
+  split
+  · exact hi
+  · split
+    · exact (hi.same (t := { s with rearm := false }) rfl rfl rfl rfl rfl rfl).of_D (D_resetPollerEvent g _)
+    · exact hi
+
+theorem invD_evErrClose (g : Cfg) (s : S) (hi : InvD g s) : InvD g (evErrClose s) := by
+  unfold evErrClose
+  split
+  · exact hi
+  · split
+    · split
+      · exact hi.same rfl rfl rfl rfl rfl rfl
+      · exact invD_flipWE g _ (hi.same rfl rfl rfl rfl rfl rfl)
+    · exact hi
+
 theorem invD_flipClosed (g : Cfg) (s : S) (hi : InvD g s) : InvD g (flipClosed s) := by
   unfold flipClosed
   split
@@ -705,6 +731,9 @@ theorem invD_step (g : Cfg) (s : S) (op : Op) (hi : InvD g s) (htp : s.tearPendi
   | registerDial => exact (invD_registerDial g s hi).of_D (D_ghost _ _ _)
   | evTake o i e ks => exact (invD_evTake g s _ i e ks hi).of_D (D_ghost _ _ _)
   | evEnd => exact invD_evEnd g s hi
+  | evConnEnd => exact invD_evConnEnd g s hi
+  | evRearm => exact invD_evRearm g s hi
+  | evErrClose => exact invD_evErrClose g s hi
   | flipClosed => exact invD_flipClosed g s hi
   | teardown => exact invD_teardown g s hi htp
   | setWriteDeadline z => exact invD_setWriteDeadline g s z hi
